@@ -23,6 +23,8 @@
       alert X                  fatal alert written by the server (sslEncode.c 1120-1153):
                                SSL_FLAGS_ERROR + matrixClearSession(ssl, 1)
       tick <ms>                advance the virtual clock
+      t13v X v= s= life= age=  tls13ValidateSessionParams on fabricated parameters of a decrypted TLS 1.3 ticket
+                               (version token, suite, sealed lifetime in s, age of the sealed timestamp in ms)
       kadd n=<xx> k=<xx> kl=<16|32> h=<xx> | kdel n=<xx>   ticket key list (names/keys = byte repeated)
       mkt X iv=<xx> j=<k>      matrixCreateSessionTicket -> ticket bank k
       unl X <tspec>            matrixUnlockSessionTicket as the extension parser calls it
@@ -269,6 +271,19 @@ static void do_op(char **a, int n)
         s->sid = NULL; s->sessionIdLen = 0;
     }
     else if (!strcmp(op, "alert")) { s->flags |= SSL_FLAGS_ERROR; rc = (s->flags & SSL_FLAGS_SERVER) ? matrixClearSession(s, 1) : 1; }
+    else if (!strcmp(op, "t13v")) {
+        /* tls13ValidateSessionParams on fabricated decrypted-ticket parameters: t13v X v=<tok> s=<suite> life=<s> age=<ms> */
+        const char *v = kv(a + 2, n - 2, "v"), *su = kv(a + 2, n - 2, "s"), *li = kv(a + 2, n - 2, "life"), *ag = kv(a + 2, n - 2, "age");
+        psTls13SessionParams_t p; memset(&p, 0, sizeof p); show = 0;
+        psProtocolVersion_t pv = vtok(v ? atoi(v) : 34) | v_tls_negotiated;
+        p.majVer = psEncodeVersionMaj(pv); p.minVer = psEncodeVersionMin(pv);
+        p.cipherId = (uint16_t) (su ? strtol(su, NULL, 16) : 0x1301); p.ticketLifetime = (uint32_t) (li ? strtoul(li, NULL, 10) : 360);
+        int64_t t0 = g_now_ms - (ag ? strtoll(ag, NULL, 10) : 0);
+        p.timestamp.psTimeInternal.tv_sec = (time_t) (t0 / 1000); p.timestamp.psTimeInternal.tv_nsec = (long) (t0 % 1000) * 1000000L;
+        if (s->cipher == NULL || t0 < 0) { printf("t13v=-100:0"); return; }
+        s->err = SSL_ALERT_NONE; rc = tls13ValidateSessionParams(s, &p);
+        printf("t13v=%d:%d", rc, (int) s->err); return;
+    }
     else if (!strcmp(op, "tick") && n >= 2) { g_now_ms += strtoll(a[1], NULL, 10); show = 0; }
     else if (!strcmp(op, "kadd")) {
         unsigned char nm[16], k[32], h[32]; memset(nm, hexbyte(kv(a + 1, n - 1, "n")), 16); memset(k, hexbyte(kv(a + 1, n - 1, "k")), 32); memset(h, hexbyte(kv(a + 1, n - 1, "h")), 32);
@@ -325,10 +340,11 @@ static void run_ops(void)
       tbl                dump the server cache
       sidinfo            print the client's saved session id / ticket length
       tick <ms>
-      stash/unstash k, idfrom k, mksid, tkdrop, tkx, pskx, pskkx, rekey, step, xor: see live_cmd()
+      stash/unstash k, idfrom k, mksid, tkdrop, tkx, pskx, pskkx, rekey, step, xor, park/unpark k, app, dels, sflags: see live_cmd()
    The cache is NOT reset between commands of one line; it is reset at the start of the line. */
 static unsigned char g_first_ms[48]; static int g_have_first;
 static sslSessionId_t *g_sid_stash[8];
+static peer_t g_park_c[4], g_park_s[4];      /* connections kept open while another session runs (shared cache entries) */
 static void live_cmd(char **a, int n)
 {
     if (!strcmp(a[0], "new")) {
@@ -366,6 +382,25 @@ static void live_cmd(char **a, int n)
         queue_t *q = a[1][0] == 's' ? &g_s2c : &g_c2s; size_t off = (size_t) atoi(a[2]); size_t l = q_reclen(q);
         if (off < l) { q->b[off] ^= (unsigned char) strtol(a[3], NULL, 16); printf("xor:ok"); } else printf("xor:range");
     }
+    else if (!strcmp(a[0], "park") && n >= 2) {
+        /* keep the current client+server connection OPEN and out of the way; the next `new` starts another pair */
+        int k = atoi(a[1]) & 3; g_park_c[k] = g_c; g_park_s[k] = g_s; memset(&g_c, 0, sizeof g_c); memset(&g_s, 0, sizeof g_s); g_s.is_server = 1;
+        q_init(&g_c2s); q_init(&g_s2c); printf("park");
+    }
+    else if (!strcmp(a[0], "unpark") && n >= 2) {
+        int k = atoi(a[1]) & 3; peer_free(&g_c); peer_free(&g_s); g_c = g_park_c[k]; g_s = g_park_s[k];
+        memset(&g_park_c[k], 0, sizeof g_c); memset(&g_park_s[k], 0, sizeof g_s); q_init(&g_c2s); q_init(&g_s2c);
+        g_ssl_of[0] = g_c.ssl; g_ssl_of[1] = g_s.ssl; printf("unpark:%d", g_s.ssl ? 1 : 0);
+    }
+    else if (!strcmp(a[0], "app") && n >= 3) {       /* application record from one side, left in the queue */
+        unsigned char *d; size_t l = unhex(a[2], &d); peer_t *p = a[1][0] == 's' ? &g_s : &g_c; int sq = g_quiet;
+        int32 rc = p->ssl ? matrixSslEncodeToOutdata(p->ssl, d, (uint32) l) : -999; g_quiet = 1; flush_out(p); g_quiet = sq; free(d);
+        printf("app:%d", rc >= 0 ? 0 : rc);
+    }
+    else if (!strcmp(a[0], "sflags")) {              /* server connection: error / closed flags, cache reference */
+        if (g_s.ssl) printf("sflags:E%d,C%d", !!(g_s.ssl->flags & SSL_FLAGS_ERROR), !!(g_s.ssl->flags & SSL_FLAGS_CLOSED)); else printf("sflags:nil");
+    }
+    else if (!strcmp(a[0], "dels")) { peer_free(&g_s); printf("dels"); }          /* matrixSslDeleteSession on the server side only */
     else if (!strcmp(a[0], "res?")) {
         int cr = g_c.ssl ? matrixSslIsResumedSession(g_c.ssl) : -1, sr = g_s.ssl ? matrixSslIsResumedSession(g_s.ssl) : -1;
         int eq = (g_c.ssl && g_s.ssl) ? !memcmp(g_c.ssl->sec.masterSecret, g_s.ssl->sec.masterSecret, 48) : -1;
@@ -447,6 +482,7 @@ static void live_cmd(char **a, int n)
 static void run_live(void)
 {
     peer_free(&g_c); peer_free(&g_s);
+    for (int k = 0; k < 4; k++) { peer_free(&g_park_c[k]); peer_free(&g_park_s[k]); memset(&g_park_c[k], 0, sizeof g_c); memset(&g_park_s[k], 0, sizeof g_s); }
     if (g_saved_sid) { matrixSslDeleteSessionId(g_saved_sid); g_saved_sid = NULL; }
     if (g_skeys_persist) { matrixSslDeleteKeys(g_skeys_persist); g_skeys_persist = NULL; }
     for (int k = 0; k < 8; k++) if (g_sid_stash[k]) { matrixSslDeleteSessionId(g_sid_stash[k]); g_sid_stash[k] = NULL; }
